@@ -3,29 +3,18 @@
 package verifh
 
 import (
-	"encoding/json"
-	"flag"
-	"fmt"
 	"os"
 	"testing"
 
 	"github.com/transparency-dev/witness/internal/verifh/vlib"
-	"k8s.io/klog/v2"
 )
 
-// replayers maps "<prop>/<part>" to a function that re-runs executor+oracle on a saved
-// case without involving rapid.
-var replayers = map[string]func(raw json.RawMessage) error{}
+// replayers is the package's view of the shared replay registry.
+var replayers = vlib.Replayers
 
 func TestMain(m *testing.M) {
 	vlib.InstallMetrics()
-	// keep klog quiet: the witness logs an ERROR line for every root mismatch
-	fs := flag.NewFlagSet("klog", flag.ContinueOnError)
-	klog.InitFlags(fs)
-	_ = fs.Set("logtostderr", "false")
-	_ = fs.Set("alsologtostderr", "false")
-	_ = fs.Set("stderrthreshold", "FATAL")
-	klog.SetOutput(discard{})
+	vlib.QuietKlog()
 	if os.Getenv("VERIF_CHILD") != "" {
 		os.Exit(childMain())
 	}
@@ -34,26 +23,13 @@ func TestMain(m *testing.M) {
 	os.Exit(code)
 }
 
-type discard struct{}
-
-func (discard) Write(p []byte) (int, error) { return len(p), nil }
-
 // TestReplay re-runs the case in $VERIF_REPLAY.
 func TestReplay(t *testing.T) {
-	f, err := vlib.LoadReplay()
+	what, ran, err := vlib.RunReplay()
 	if err != nil {
-		t.Fatalf("cannot load replay: %v", err)
+		t.Fatalf("replay of %s fails: %v", what, err)
 	}
-	if f == nil {
-		t.Skip("no VERIF_REPLAY")
+	if !ran {
+		t.Skipf("nothing to replay in this binary (%s)", what)
 	}
-	r, ok := replayers[f.Prop+"/"+f.Part]
-	if !ok {
-		t.Skipf("no replayer for %s/%s in this binary", f.Prop, f.Part)
-	}
-	if err := r(f.Case); err != nil {
-		fmt.Printf("REPLAY-FAIL property=%s part=%s: %v\n", f.Prop, f.Part, err)
-		t.Fatalf("replay of %s/%s fails: %v", f.Prop, f.Part, err)
-	}
-	fmt.Printf("REPLAY-OK property=%s part=%s\n", f.Prop, f.Part)
 }
